@@ -50,7 +50,7 @@ def compare_runs(spec: dict, runs: list[dict]):
 class C05(Property):
     pid = "C05"
     title = "Workflow results do not depend on the interleaving"
-    lean_targets = ["SFV.Props.C05", "SFV.Props.C05Steps", "SFV.Props.C05Op"]
+    lean_targets = ["SFV.Model.Exec", "SFV.Model.LoopComb", "SFV.Gen.StepGuards", "SFV.Props.C05", "SFV.Props.C05Steps", "SFV.Props.C05Op"]
     props_files = ["SFV/Props/C05.lean", "SFV/Props/C05Steps.lean", "SFV/Props/C05Op.lean"]
     drivers = ["Drivers/Net.lean"]
     translators = []
@@ -86,17 +86,39 @@ class C05(Property):
     min_nontrivial = 10
 
     def _plan(self, ctx: Ctx):
-        n, k = (250, 8) if ctx.tier == "thorough" else (40, 3)
+        n, k = (250, 8) if ctx.tier == "thorough" else (30, 3)
         if ctx.mode == "search":
             n, k = n, 16
         return n, k
+
+
+    CHUNK = 8
+
+    def _runs_for(self, ctx, pre, items, i, job_of, **kw):
+        """runs of item i; the items of a chunk run in parallel worker processes (wfcheck.run_many)"""
+        if i not in pre:
+            chunk = items[i:i + self.CHUNK]
+            outs = wfcheck.run_many([job_of(it) for it in chunk], ctx.scratch, **kw)
+            pre.update({i + j: o for j, o in enumerate(outs)})
+        return pre.pop(i)
 
     def explore(self, ctx: Ctx) -> None:
         rng = ctx.rng
         n, k = self._plan(ctx)
         lines, metas = [], []
         tfm_lines, tfm_metas = [], []
+        items, pre = [], {}
         for i in range(n):
+            if i < len(wfgen.CORPUS):
+                spec = json.loads(json.dumps(wfgen.CORPUS[i]))
+            feats = {"exec": 7, "scatter": 5} if rng.random() < 0.45 else ({"cart": 4, "gather": 6} if rng.random() < 0.25 else ({"loop": 3} if rng.random() < 0.25 else None))
+            if i >= len(wfgen.CORPUS):
+                spec = wfgen.gen_spec(rng, size=rng.randint(2, 12), features=feats)
+            seeds = [rng.randrange(1 << 30) for _ in range(k)]
+            if i < len(wfgen.CORPUS):
+                seeds = [2 + j for j in range(k)]      # corpus: fixed schedules, the first one with reverse job completion order
+            items.append((spec, seeds))
+        for i, (spec, seeds) in enumerate(items):
             if ctx.out_of_time():
                 ctx.extra["incomplete"] = True
                 break
@@ -106,13 +128,8 @@ class C05(Property):
                 ctx.notes.append(f"soft time limit: stopped after {i} of {n} planned workflows")
                 break
             if i < len(wfgen.CORPUS):
-                spec = json.loads(json.dumps(wfgen.CORPUS[i]))
                 ctx.corpus_replayed += 1
-            feats = {"exec": 7, "scatter": 5} if rng.random() < 0.45 else ({"cart": 4, "gather": 6} if rng.random() < 0.25 else ({"loop": 3} if rng.random() < 0.25 else None))
-            if i >= len(wfgen.CORPUS):
-                spec = wfgen.gen_spec(rng, size=rng.randint(2, 12), features=feats)
-            seeds = [rng.randrange(1 << 30) for _ in range(k)]
-            runs = wfcheck.run_schedules(spec, seeds, ctx.scratch, timeout=30.0, stop_on_hang=True)
+            runs = self._runs_for(ctx, pre, items, i, lambda it: {"spec": it[0], "seeds": it[1]}, timeout=30.0, stop_on_hang=True)
             den = wfgen.py_den(spec)
             ntok = sum(len(v) for v in den.values())
             key = ("wf", json.dumps(spec, sort_keys=True)) if len(spec["nodes"]) >= 3 and ntok >= 5 else None
